@@ -201,7 +201,9 @@ def observe(shape, light=False):
                 for i, nb in enumerate(shape.neighbors):
                     for j in nb:
                         if int(j) > i:
-                            d[frozenset((facekey[i], facekey[int(j)]))] = np.asarray(shape.get_dihedral(i, int(j)), float)
+                            # compared through the cosine: arccos is ill-conditioned at flat (coplanar) dihedrals
+                            # (NaN = arccos of -1-eps between coplanar neighbours of a general mesh: flat, cos = -1)
+                            d[frozenset((facekey[i], facekey[int(j)]))] = np.nan_to_num(np.cos(np.asarray(shape.get_dihedral(i, int(j)), float)), nan=-1.0)
                 out["dihedrals"] = ("keyed", d)
             except Exception as e:
                 out["dihedrals"] = ("raises", type(e).__name__)
